@@ -397,8 +397,8 @@ func checkMergeKeysState(c *Ctx) {
 			ast.Inspect(f.Decl.Body, func(n ast.Node) bool {
 				if ix, ok := n.(*ast.IndexExpr); ok && isVar(info, ix.X, statesVar) {
 					nIdx++
-					d := exprString(ix.Index)
-					if !(strings.HasSuffix(d, ".DiamondID + apc.SplitID") || strings.Contains(d, "DiamondID") && strings.Contains(d, "SplitID")) {
+					d := describeExprAt(f, ix.Index) // a key hoisted into a local is described by its definition
+					if !(strings.Contains(d, ".DiamondID") && strings.Contains(d, ".SplitID")) {
 						okKey = false
 					}
 				}
